@@ -7,11 +7,11 @@ n = int(sys.argv[2]) if len(sys.argv) > 2 else 3
 p = [json.loads(l) for l in open(os.path.join(V, 'properties.jsonl'))]
 p = [x for x in p if x['id'] == pid][0]
 import glob
-round2 = '--round2' in sys.argv
+round2 = '--round2' in sys.argv or '--round3' in sys.argv
 avoid = ''
 suffix = ''
 if round2:
-    suffix = 'b'
+    suffix = 'c' if '--round3' in sys.argv else 'b'
     prev = []
     for m in sorted(glob.glob(os.path.join(V, 'seeded', pid + '_m*', 'meta.json'))):
         d = json.load(open(m))
